@@ -322,6 +322,8 @@ class ShadowStore:
             if exc is not None:
                 self.viol("C20", "reserve_raised", f"{self.kind}:{op}-raised:{type(exc).__name__}",
                           {"exc": repr(exc)})
+                self.viol("C02" if op == "reserve_get" else "C01", "reserve_raised", f"{self.kind}:{op}-raised:{type(exc).__name__}",
+                          {"exc": repr(exc), "granted_get_cancels_so_far": self.n_granted_get_cancels})
             self.settle()
             return
         if cls != "ok":
@@ -495,6 +497,9 @@ class ShadowStore:
         if n_held + len(self.grant["put"]) > self.cap:
             self.viol("C01", "capacity_exceeded", f"{self.kind}:held+granted_puts>capacity",
                       {"held": n_held, "granted_puts": len(self.grant["put"]), "cap": self.cap})
+            if self.is_belt:
+                self.viol("C12", "capacity", f"{'slotted' if self.kind == 'slotbelt' else 'belt'}:more-items-than-capacity-admitted-to-the-conveyor",
+                          {"held": n_held, "granted_puts": len(self.grant["put"]), "cap": self.cap})
         if n_held + len(self.grant["put"]) >= self.cap:
             if not self.was_full:
                 self.stats["times_full"] += 1
@@ -569,6 +574,11 @@ class ShadowStore:
                 continue
             b = self.binding_of(rec)
             if b is None:
+                re_ = getattr(self.store, "reserved_events", None)
+                if re_ is not None and not any(e is rec.tok for e in re_):
+                    self.viol("C02", "granted_but_unbound", f"{self.kind}:{self.mode}:granted-retrieval-is-not-bound-to-any-item",
+                              {"token": rec.seq, "ready": len(self.ready() or []), "granted_gets": len(self.grant["get"]),
+                               "granted_get_cancels_so_far": self.n_granted_get_cancels})
                 self.stats["binding_unreadable"] += 1
                 bound_recs.append(None)
                 continue
@@ -770,6 +780,8 @@ class ShadowStore:
                     self.viol("C14", "F6_batch_not_handed_over", "fleet:delivered-item-not-offered-to-waiting-retrieval",
                               {"token": (rec.prio, rec.seq), "since": t0, "now": now, "ready": len(r) if r is not None else None,
                                "granted_get": len(self.grant["get"])})
+                for h in self.mon.lost_wakeup_hooks:
+                    h(self, rec, why)
                 self.viol("C04", "lost_wakeup", f"{self.kind}:{rec.side}:pending-while-{why}",
                           {"token": (rec.prio, rec.seq), "since": t0, "now": now, "issued": rec.t_issue,
                            "free": self.free(), "ready": len(r) if r is not None else None,
